@@ -178,7 +178,8 @@ func runC08(c *Ctx) error {
 				for _, r := range mine {
 					op := sendOp{API: r.api, Opcode: r.opcode, Slices: splitEven(r.payload, 1+len(r.payload)%3)}
 					if r.api == "file" {
-						op.Reader = newChunkReader(splitEven(r.payload, 1+len(r.payload)%4), "sep")
+						// the last bytes arrive either before io.EOF or together with it
+						op.Reader = newChunkReader(splitEven(r.payload, 1+len(r.payload)%4), []string{"sep", "with"}[len(r.payload)%2])
 					}
 					res := rawSend(conn, op)
 					mu.Lock()
@@ -302,7 +303,69 @@ func runC08(c *Ctx) error {
 	if err := parkedBroadcastScenario(c); err != nil {
 		return err
 	}
-	return sharedBroadcastFrameScenario(c)
+	if err := sharedBroadcastFrameScenario(c); err != nil {
+		return err
+	}
+	// ---- (d) a streamed send whose io.Reader fails after a non-final frame has gone out, then another write: whatever the
+	// second call returns, the wire must not show a new data message inside the unfinished one
+	for _, server := range []bool{true, false} {
+		for _, pmd := range []bool{false, true} {
+			spec := connSpec{Server: server, PMD: pmd}
+			conn, tap, err := spec.open(&recHandler{})
+			if err != nil {
+				return err
+			}
+			r1 := rawSend(conn, sendOp{API: "file", Opcode: 2, Reader: newChunkReader([][]byte{randBytes(c.Rng, 131072), randBytes(c.Rng, 131072), []byte("tail")}, "fail")})
+			r2 := rawSend(conn, sendOp{API: "string", Opcode: 1, Slices: [][]byte{[]byte("hello")}})
+			r3 := rawSend(conn, sendOp{API: "async", Opcode: 2, Slices: [][]byte{[]byte("again")}})
+			tag := fmt.Sprintf("reader fails mid-stream server=%v pmd=%v results=%d,%d,%d", server, pmd, r1, r2, r3)
+			replay := map[string]any{"tag": tag, "wire_prefix": fmt.Sprintf("%x", head(tap.written(), 32))}
+			fs, rest, perr := parseFrames(tap.written())
+			if perr != nil || len(rest) != 0 {
+				c.oracleFail("bytes on the wire are not whole frames ["+tag+"]", "wire-not-frames", replay)
+			} else {
+				var data []frame
+				for _, f := range fs {
+					if f.Opcode != 8 {
+						data = append(data, f)
+					}
+				}
+				if _, problem := groupMessages(data); problem != "" && problem != "unfinished fragmented message at end of stream" {
+					c.oracleFail("after a streamed send whose reader failed: "+problem+" ["+tag+"]", "frames-interleaved", replay)
+				}
+				if r1 == 0 {
+					c.oracleFail("WriteFile reported success although its reader failed ["+tag+"]", "success-not-once", replay)
+				}
+			}
+			_ = tap.Close()
+			c.count(tag, true, "kind=reader-fails-mid-stream")
+			// a reader that returns its last bytes TOGETHER with io.EOF (gzip/flate readers, HTTP bodies, iotest.DataErrReader)
+			for _, sizes := range [][]int{{1}, {1000, 500}, {131072, 7}, {131072, 131072, 1}} {
+				conn2, tap2, err := spec.open(&recHandler{})
+				if err != nil {
+					return err
+				}
+				var chunks [][]byte
+				for _, n := range sizes {
+					chunks = append(chunks, randBytes(c.Rng, n))
+				}
+				want := joinSlices(chunks)
+				res := rawSend(conn2, sendOp{API: "file", Opcode: 2, Reader: newChunkReader(chunks, "with")})
+				tag2 := fmt.Sprintf("last bytes with io.EOF server=%v pmd=%v chunks=%v result=%d", server, pmd, sizes, res)
+				rx := &rfcReceiver{server: server}
+				msgs, problem := rx.receive(tap2.written())
+				switch {
+				case res != 0 || problem != "" || len(msgs) != 1:
+					c.oracleFail(fmt.Sprintf("streamed send failed or is not one message on the wire (result %d, %s, %d messages) [%s]", res, problem, len(msgs), tag2), "success-not-once", map[string]any{"tag": tag2})
+				case !bytes.Equal(msgs[0].Payload, want):
+					c.oracleFail(fmt.Sprintf("WriteFile reported success for %d bytes, the message on the wire carries %d [%s]", len(want), len(msgs[0].Payload), tag2), "success-not-once", map[string]any{"tag": tag2})
+				}
+				_ = tap2.Close()
+				c.count(tag2, true, "kind=data-with-eof")
+			}
+		}
+	}
+	return nil
 }
 
 func minInt(a, b int) int {
